@@ -192,29 +192,28 @@ fn lexer_tuple_order(m: &Model, ctx: &mut Ctx) {
     }
 }
 
-/// let extension_annotation = if i >= first.unwrap_or(usize::MAX) [&& name.starts_with(PREFIX)] { .. }
-fn cmp_sites(m: &Model, ctx: &mut Ctx, ev: &Evaluator) {
+/// The per-component closure of each of the three renderers is evaluated as a whole, for every order relation between the
+/// component index and the stored first-extension index (and for no marker), for group / non-group names; the annotation
+/// it hands to the member formatter is observed at the sink call.
+fn cmp_sites(m: &Model, ctx: &mut Ctx, _ev: &Evaluator) {
     let mut sites = 0;
+    let consts = const_resolver(m);
     for (fname, list, has_groups) in [("format_enum_members", "members", false), ("format_sequence_or_set_members", "members", true), ("format_choice_options", "options", true)] {
         let Some(f) = anchor_fn(m, ctx, "C05.cmp", Some("Rasn"), fname, None) else { continue };
-        // same container for the index and the enumerated list
-        let b = tok(&f.block);
-        ctx.oblige("C05.cmp", &format!("{}:index-and-list-of-same-type", fname), true);
-        let base = b.split("let first_extension_index=").nth(1).and_then(|s| s.split(".extensible;").next()).map(|s| s.to_string());
-        match &base {
-            Some(base) if b.contains(&format!("{}.{}.iter().enumerate()", base, list)) => {}
-            _ => ctx.violate("C05.cmp", &format!("{}:index-and-list-of-same-type", fname), &f.file, f.line,
-                &format!("{}: the first-extension index and the enumerated component list must come from the same type (`x.extensible` and `x.{}.iter().enumerate()`)", fname, list)),
-        }
+        let params: Vec<String> = f.sig.inputs.iter().filter_map(|a| match a { syn::FnArg::Typed(t) => Some(tok(&t.pat)), _ => None }).collect();
+        let Some(container) = params.first().cloned() else { continue };
+        // the closure that decides the annotation, and the iterator it is applied to
         struct C {
-            out: Vec<syn::Local>,
+            out: Vec<(syn::ExprClosure, String)>,
         }
         impl model::DeepCb for C {
-            fn local(&mut self, l: &syn::Local) {
-                if let Some(init) = &l.init {
-                    if let syn::Expr::If(_) = &*init.expr {
-                        if tok(&init.expr).contains("quote!(extension_addition)") {
-                            self.out.push(l.clone());
+            fn expr(&mut self, e: &syn::Expr) {
+                if let syn::Expr::MethodCall(mc) = e {
+                    for a in mc.args.iter() {
+                        if let syn::Expr::Closure(cl) = a {
+                            if tok(&cl.body).contains("extension_addition") && !self.out.iter().any(|(c, _)| tok(c).contains(&tok(cl)) && tok(c) != tok(cl)) {
+                                self.out.push((cl.clone(), tok(&mc.receiver)));
+                            }
                         }
                     }
                 }
@@ -222,32 +221,76 @@ fn cmp_sites(m: &Model, ctx: &mut Ctx, ev: &Evaluator) {
         }
         let mut c = C { out: vec![] };
         model::deep_walk_block(&f.block, &mut c);
-        if c.out.len() != 1 {
-            ctx.violate("C05.cmp", &format!("{}:site-count={}", fname, c.out.len()), &f.file, f.line, &format!("{}: expected exactly one extension annotation expression, found {}", fname, c.out.len()));
+        // keep outermost closures only
+        let texts: Vec<String> = c.out.iter().map(|(cl, _)| tok(cl)).collect();
+        let outer: Vec<&(syn::ExprClosure, String)> = c.out.iter().enumerate().filter(|(i, _)| !texts.iter().enumerate().any(|(j, t)| j != *i && t.len() > texts[*i].len() && t.contains(&texts[*i]))).map(|(_, x)| x).collect();
+        if outer.len() != 1 {
+            ctx.violate("C05.cmp", &format!("{}:site-count={}", fname, outer.len()), &f.file, f.line, &format!("{}: expected exactly one per-component closure deciding the extension annotation, found {}", fname, outer.len()));
             continue;
         }
+        let (clo, recv) = outer[0];
+        ctx.oblige("C05.cmp", &format!("{}:index-and-list-of-same-type", fname), true);
+        if *recv != format!("{}.{}.iter().enumerate()", container, list) {
+            ctx.violate("C05.cmp", &format!("{}:index-and-list-of-same-type", fname), &f.file, f.line,
+                &format!("{}: the per-component closure runs over `{}`; the position compared with `{}.extensible` must be the position in `{}.{}.iter().enumerate()`", fname, recv, container, container, list));
+        }
         sites += 1;
-        let init = c.out[0].init.as_ref().unwrap().expr.clone();
+        let sink = |ann: &Val| Val::Ctor("$SINK".into(), vec![ann.clone()], BTreeMap::new());
+        let hook = |_: &Evaluator, name: &str, a: &[Val]| -> Option<Result<Val, String>> {
+            match name {
+                ".format_sequence_member" => Some(a.get(3).map(|x| Ok(sink(x))).unwrap_or(Err("format_sequence_member without annotation".into()))),
+                ".format_choice_option" => Some(a.get(4).map(|x| Ok(sink(x))).unwrap_or(Err("format_choice_option without annotation".into()))),
+                ".join_annotations" => match a.get(1) {
+                    Some(Val::List(l)) if !l.is_empty() => Some(Ok(sink(&l[0]))),
+                    _ => Some(Err("join_annotations without a list".into())),
+                },
+                ".and_then" | ".map" | ".map_err" if matches!(a.first(), Some(Val::Ctor(n, _, _)) if n == "$SINK") => Some(Ok(a[0].clone())),
+                ".to_rust_enum_identifier" | ".to_rust_snake_case" | ".to_rust_title_case" => Some(Ok(a.get(1).cloned().unwrap_or(Val::Unit))),
+                "Self::needs_unnesting" | "Rasn::needs_unnesting" => Some(Ok(Val::Bool(false))),
+                _ => None,
+            }
+        };
+        let ev = Evaluator { consts: &consts, call_hook: &hook, inline: None };
         for ext in [None, Some(0usize), Some(1), Some(2), Some(3)] {
             for i in 0..4usize {
                 for group in if has_groups { vec![false, true] } else { vec![false] } {
                     let key = format!("{}: i={} first_ext={:?} group={}", fname, i, ext, group);
                     ctx.oblige("C05.cmp", &key, true);
-                    let mut env = Env::new();
-                    env.insert("i".into(), Val::int(i as i128));
-                    env.insert("first_extension_index".into(), ext.map(|e| Val::some(Val::int(e as i128))).unwrap_or(Val::none()));
                     let mut n = BTreeMap::new();
                     n.insert("name".to_string(), Val::Str(if group { "ext_group_abc".into() } else { "abc".into() }));
+                    n.insert("index".to_string(), Val::int(i as i128));
+                    n.insert("ty".to_string(), Val::Opaque("ty".into()));
                     let member = Val::Ctor("member".into(), vec![], n);
-                    for v in ["m", "o", "e", "member", "option"] {
-                        env.insert(v.into(), member.clone());
+                    let mut cv = BTreeMap::new();
+                    cv.insert("extensible".to_string(), ext.map(|e| Val::some(Val::int(e as i128))).unwrap_or(Val::none()));
+                    cv.insert(list.to_string(), Val::List(vec![member.clone(); 4]));
+                    let mut env = Env::new();
+                    env.insert(container.clone(), Val::Ctor("container".into(), vec![], cv));
+                    env.insert("self".into(), Val::ctor("Rasn"));
+                    for p in params.iter().skip(1) {
+                        env.insert(p.clone(), Val::Str("Parent".into()));
                     }
-                    match ev.eval(&init, &mut env) {
-                        Ok(v) => {
-                            let got = match &v {
-                                Val::Sym(s) => s.clone(),
-                                Val::Opaque(s) if s.contains("TokenStream::new") => String::new(),
-                                o => o.show(),
+                    // the fn's own leading `let`s (e.g. the stored index) are evaluated first
+                    for st in &f.block.stmts {
+                        if let syn::Stmt::Local(l) = st {
+                            if let (syn::Pat::Ident(pi), Some(init)) = (&l.pat, &l.init) {
+                                if !tok(&init.expr).contains("extension_addition") {
+                                    if let Ok(v) = ev.eval(&init.expr, &mut env) {
+                                        env.insert(pi.ident.to_string(), v);
+                                    }
+                                }
+                            }
+                        }
+                    }
+                    let pair = Val::Tuple(vec![Val::int(i as i128), member.clone()]);
+                    let args = if clo.inputs.len() == 2 { vec![Val::Opaque("acc".into()), pair] } else { vec![pair] };
+                    match ev.apply_closure(&syn::Expr::Closure(clo.clone()), &args, &env) {
+                        Ok(Val::Ctor(s, p, _)) if s == "$SINK" => {
+                            let got = match p.first() {
+                                Some(Val::Sym(s)) => s.clone(),
+                                Some(Val::Opaque(s)) if s.contains("TokenStream::new") => String::new(),
+                                Some(o) => o.show(),
+                                None => "?".into(),
                             };
                             let want = match ext {
                                 Some(e) if i >= e => if group { "extension_addition_group" } else { "extension_addition" },
@@ -255,10 +298,11 @@ fn cmp_sites(m: &Model, ctx: &mut Ctx, ev: &Evaluator) {
                             };
                             if got != want {
                                 let rel = match ext { None => "no-marker".to_string(), Some(e) => (if i < e { "i<ext" } else if i == e { "i=ext" } else { "i>ext" }).to_string() };
-                                ctx.violate("C05.cmp", &format!("{}:{}:group={}", fname, rel, group), &f.file, span_line(&c.out[0]),
+                                ctx.violate("C05.cmp", &format!("{}:{}:group={}", fname, rel, group), &f.file, span_line(clo),
                                     &format!("[{}] annotation `{}`, expected `{}`: the components after the marker, and only those, are extension additions", key, got, want));
                             }
                         }
+                        Ok(o) => ctx.fail_closed("C05.cmp", &format!("[{}]: the closure does not end in the member formatter (got {})", key, o.show().chars().take(120).collect::<String>())),
                         Err(e) => ctx.fail_closed("C05.cmp", &format!("[{}]: {}", key, e)),
                     }
                 }
